@@ -313,21 +313,38 @@ namespace smt
             auto it = l.vars.cbegin();
             if (!is_integer(it->second) | !is_integer(l.known_term))
                 throw std::invalid_argument("not a valid integer difference logic constraint..");
-            c_lb += lb(it->first) * it->second.numerator() + l.known_term.numerator();
-            c_ub += ub(it->first) * it->second.numerator() + l.known_term.numerator();
+            if (is_positive(it->second))
+            {
+                c_lb += lb(it->first) * it->second.numerator() + l.known_term.numerator();
+                c_ub += ub(it->first) * it->second.numerator() + l.known_term.numerator();
+            }
+            else
+            { // a negative coefficient swaps the bounds..
+                c_lb += ub(it->first) * it->second.numerator() + l.known_term.numerator();
+                c_ub += lb(it->first) * it->second.numerator() + l.known_term.numerator();
+            }
             break;
         }
         case 2:
         {
-            const auto expr = l / l.vars.cbegin()->second;
+            const rational c = l.vars.cbegin()->second; // the expression is c * (v0 - v1) + known_term..
+            const auto expr = l / c;
             auto it = expr.vars.cbegin();
             [[maybe_unused]] const auto [v0, c0] = *it++;
             const auto [v1, c1] = *it;
-            if (!is_integer(c1) || c1.numerator() != -1 || !is_integer(l.known_term))
+            if (!is_integer(c1) || c1.numerator() != -1 || !is_integer(c) || !is_integer(l.known_term))
                 throw std::invalid_argument("not a valid integer difference logic expression..");
-            const auto dist = distance(v1, v0);
-            c_lb += dist.first + expr.known_term.numerator();
-            c_ub += dist.second + expr.known_term.numerator();
+            const auto dist = distance(v1, v0); // the bounds of v0 - v1..
+            if (is_positive(c))
+            {
+                c_lb += dist.first * c.numerator() + l.known_term.numerator();
+                c_ub += dist.second * c.numerator() + l.known_term.numerator();
+            }
+            else
+            {
+                c_lb += dist.second * c.numerator() + l.known_term.numerator();
+                c_ub += dist.first * c.numerator() + l.known_term.numerator();
+            }
             break;
         }
         default:
